@@ -1,0 +1,52 @@
+//go:build verif
+
+// Package vhook provides observation points for the external verification
+// harness (build tag `verif`). A harness may install one callback that is
+// invoked synchronously on the goroutine reaching a point: it can record the
+// event, yield, or park the goroutine until released.
+package vhook
+
+import "sync/atomic"
+
+type Handler func(name string, arg any)
+
+var handler atomic.Pointer[Handler]
+
+// Set installs the callback (nil removes it).
+func Set(h Handler) {
+	if h == nil {
+		handler.Store(nil)
+		return
+	}
+	handler.Store(&h)
+}
+
+// At marks a program point.
+func At(name string, arg any) {
+	if h := handler.Load(); h != nil {
+		(*h)(name, arg)
+	}
+}
+
+// Tuning lets the harness shrink hard-coded sizes so that flushes, compactions
+// and cache evictions happen at simulation scale. Zero values change nothing.
+type TuningValues struct {
+	MemTableSize                uint64
+	TargetFileSize              uint64
+	MaxWALSize                  uint64
+	L0TableNumCompactionTrigger int
+	MaxSizeAmplificationPercent int // applied when >= 0 and TuneCompactor is set
+	SmallestLevelSize           int64
+	LevelSizeMultiplier         int
+	TuneCompactor               bool
+	TimerCacheBytes             uint64
+	WatermarkIntervalNanos      int64
+}
+
+var tuning atomic.Pointer[TuningValues]
+
+// SetTuning installs tuning values (nil removes them).
+func SetTuning(t *TuningValues) { tuning.Store(t) }
+
+// Tuning returns the installed values or nil.
+func Tuning() *TuningValues { return tuning.Load() }
